@@ -8,9 +8,9 @@ ROLES = {
 BLOCKS = {("btc", "taker"): "{3, 504}", ("btc", "maker"): "{1, 1008}", ("lbtc", "taker"): "{2, 60}", ("lbtc", "maker"): "{1, 10080}"}
 
 
-def rec(name, chain, inits, steps, faults=0, crashes=0, swaps=1, adversary=False, blocks=None, side="taker", ver="current", neglimit=False, minmsat=100000000, junk=False, legacy=False):
+def rec(name, chain, inits, steps, faults=0, crashes=0, swaps=1, adversary=False, blocks=None, side="taker", ver="current", neglimit=False, minmsat=100000000, junk=False, legacy=False, policy=False, acceptall=True):
     return ('[name |-> "%s", chain |-> "%s", inits |-> {%s}, maxsteps |-> %d, maxfaults |-> %d, maxcrashes |-> %d, maxswaps |-> %d, '
-            'blocks |-> %s, adversary |-> %s, ver |-> "' + ver + '", neglimit |-> ' + ("TRUE" if neglimit else "FALSE") + ', minmsat |-> %d, junk |-> %s, legacy |-> %s]' % (minmsat, "TRUE" if junk else "FALSE", "TRUE" if legacy else "FALSE")) % (name, chain, ", ".join('"%s"' % i for i in inits), steps, faults, crashes, swaps,
+            'blocks |-> %s, adversary |-> %s, ver |-> "' + ver + '", neglimit |-> ' + ("TRUE" if neglimit else "FALSE") + ', minmsat |-> %d, junk |-> %s, legacy |-> %s, policy |-> %s, acceptall |-> %s]' % (minmsat, "TRUE" if junk else "FALSE", "TRUE" if legacy else "FALSE", "TRUE" if policy else "FALSE", "TRUE" if acceptall else "FALSE")) % (name, chain, ", ".join('"%s"' % i for i in inits), steps, faults, crashes, swaps,
                                                    blocks or BLOCKS[(chain, side)], "TRUE" if adversary else "FALSE")
 
 
@@ -49,6 +49,8 @@ def configs(tier):
     # state, also after a crash with the claim payment in flight); the restarted node only follows an existing payment
     out.append(rec("in_receiver_lbtc_legacy", "lbtc", ["swap_in_request"], 6 if deep else 5, crashes=1, side="taker", legacy=True))
     out.append(rec("out_sender_lbtc_legacy", "lbtc", ["swapout"], 7 if deep else 5, crashes=1 if deep else 0, side="taker", legacy=True))
+    # C11 / C26: the operator switches swaps off / on, allowlists, marks the peer suspicious at run time (allowlist in force), restarts
+    out.append(rec("all_btc_policy", "btc", ["swapout", "swapin", "swap_out_request", "swap_in_request"], 5 if deep else 4, swaps=2, blocks="{1}", policy=True, acceptall=False))
     out.append(rec("mixed_btc_adv", "btc", ["swapout", "swap_in_request", "swapin", "swap_out_request"], 4 if deep else 3, swaps=2,
                    adversary=True, blocks="{3}"))
     return out
